@@ -163,6 +163,9 @@ func runCaseMore(kind string, spec json.RawMessage) vx.Out {
 	if o, ok := runCaseC07(kind, spec); ok {
 		return o
 	}
+	if o, ok := runCaseC16(kind, spec); ok {
+		return o
+	}
 	switch kind {
 	case "genwait":
 		var a struct {
